@@ -34,7 +34,20 @@ var vWBlobbers = []string{
 	"b300000000000000000000000000000000000000000000000000000000000003",
 }
 
+// vWAttempt gives one transaction its own view of the world's state; the caller adopts it
+// (w.adopt) only when the call succeeded, as the chain does.
+func (w *vWorld) vWAttempt(t *transaction.Transaction) (*cstate.StateContext, util.MerklePatriciaTrieI) {
+	child := symstate.Fork(w.trie)
+	return symstate.BalancesOn(child, w.block, t), child
+}
+
+func (w *vWorld) adopt(child util.MerklePatriciaTrieI, t *transaction.Transaction) {
+	w.trie = child
+	w.balances = symstate.BalancesOn(child, w.block, t)
+}
+
 type vWorld struct {
+	block    *block.Block
 	ssc      *StorageSmartContract
 	balances *cstate.StateContext
 	trie     util.MerklePatriciaTrieI
@@ -88,6 +101,7 @@ func vWNew(n int, sender string, value currency.Coin) *vWorld {
 	w.txn = t
 	b := &block.Block{}
 	b.Round = 100
+	w.block = b
 	w.balances, w.trie = symstate.Balances(b, t)
 	w.conf = vWConfig()
 	if err := w.ssc.saveConfig(w.balances, w.conf); err != nil {
